@@ -64,3 +64,33 @@ claim(
     "InOrder arm bumps the global index by exactly one and checks exactly the owner with diagnostics on; its InAnyOrder arm leaves "
     "the global index alone [K-bnd]; lemma ordered_history over those contracts [V].",
 )
+
+claim(
+    "C09",
+    "Contracts on the verbatim teardown / teardown_panic / teardown_report / Drop::drop / Unimock::verify / no_verify_in_drop / "
+    "Clone::clone [V]: every mock-owned panic site is a diverging stub whose `requires` is the condition under which the property "
+    "PERMITS that panic (live clone: original & not unwinding & strong_count > 1; wrong thread; verify()/no_verify_in_drop() on a "
+    "clone; unmet verdict), and each function's normal-return postcondition states that none of those conditions held (must-panic). "
+    "teardown sets torn_down, so the implicit drop after verify()/report() is a no-op (the implicit drop of by-value self is made "
+    "explicit in the extracted verify()). Lemmas over the permitted-panic predicates: a clone never panics nor reports; the original "
+    "judges only with no clone alive on its creator thread; report() = FAILURE iff verify() would have reported.",
+    trusted=["Arc::strong_count == number of live instances (std); real thread identity; helper clones created by delegation (OnceCell) and make_ref values are outside the contract"],
+    assumptions=["std::thread::panicking(), thread::current().id(), Arc::strong_count, SharedState.panic_reasons are uninterpreted environment functions (abstraction points)"],
+)
+claim(
+    "C11",
+    "Contract on the verbatim teardown [V]: both lifecycle panic sites and the verdict panic site carry `!thread_panicking()` in their "
+    "permitted-panic `requires`; Verus checks the stub precondition at the real call site, so moving the panicking() guard below the "
+    "clone or thread check fails obligation V:lifecycle::teardown.  Lemma no_double_panic: while unwinding, no mock-owned panic site "
+    "is permitted for originals and clones, any expectations, any strong count, any thread.  Helper release precedes the guard "
+    "(postcondition: delegator cell emptied on every path).",
+    trusted=["process-level behaviour (exit 101 vs SIGABRT), Drop impls of user values, lock poisoning after a caught user panic are outside the contract"],
+)
+claim(
+    "C08",
+    "Contracts [V]: teardown forwards the recorded reasons (all of them) instead of judging counts whenever a judging original finds "
+    "the list non-empty; induce_panic reaches its panic site only with the ghost flag `recorded` set by the statement that pushes the "
+    "error to the shared list (record-before-panic, ghost state); handle_error returns only on Ok and forwards Err to induce_panic.  "
+    "clone_panic_reasons returns a copy and leaves the stored list unchanged [K-bnd].",
+    trusted=["MutexIsh::locked + Vec::push abstracted as `record` (abstraction point); every error kind's route through generated code, other threads and catch_unwind are outside the contract"],
+)
